@@ -2,6 +2,7 @@
 """Development helper (not used by registered checks): run mirsym queries of a property against a cached MIR dump.
 usage: python3-vt mirsym/dev.py <Cxx> [substring] [--refresh] [--seed <seed-id>] [--replay]
   --seed: use a cached copy of /repo with seeded/<seed-id>/patch.diff applied (cache /var/tmp/vs-<seed-id>)
+  --selftest: render each query's native replay from a model of the first path of the tree as it is and run it: must PASS
   --replay: run the native replay of violated queries (dev + release) and say whether it reproduces"""
 import sys, os, time
 HERE = os.path.dirname(os.path.abspath(__file__))
@@ -18,6 +19,10 @@ if "--seed" in args:
     seed = args[i + 1]
     del args[i:i + 2]
     CACHE = "/var/tmp/vs-" + seed
+selftest = "--selftest" in args
+if selftest:
+    args.remove("--selftest")
+    os.environ["VERIF_REPLAY_SELFTEST"] = "1"
 do_replay = "--replay" in args
 if do_replay:
     args.remove("--replay")
@@ -45,6 +50,11 @@ for q in mod.MIR:
         t = time.time()
         o = mir_engine._worker(CACHE + "/similari.mir", CACHE + "/repo", pid, q.name, 0)
         print("%-40s %-12s paths=%d z3=%d (%.1fs solver) %.1fs %s" % (q.name, o["status"], o["paths"], o["queries"], o["solver_s"], time.time() - t, o["detail"][-500:]))
+        if o["status"] == "selftest":
+            n = mir_engine.native_replay(Sc, o["selftest_src"])
+            print("   SELFTEST %s: replay rendered from a model of the unchanged tree fails in %s profile(s) -> %s" % (q.name, n, "OK" if n == 0 else "BROKEN TEMPLATE"))
+            if n != 0:
+                open(CACHE + "/broken_%s.rs" % q.name, "w").write(o["selftest_src"])
         if o["status"] == "violated":
             print("   cex:", {k: v for k, v in list(o["cex"]["inputs"].items())[:16]}, o["cex"]["info"])
             if do_replay:
